@@ -207,9 +207,10 @@ func runCase(t *rapid.T, replay []op) {
 			_ = changed
 			switch {
 			case lsAfter == now:
-				if snapDigest != nil && lsBefore == snapTime && before.Canon() == snapDigest.Canon() && alive(before, now).Diff(before) == "" {
-					fail("SAVE found nothing new (dataset identical to the snapshot taken at %d) but LASTSAVE moved to %d", snapTime, lsAfter)
-				}
+				// (A snapshot of a dataset that reads the same as at the previous snapshot is still a snapshot, and
+				// LASTSAVE then reports its time: the observable dataset can be equal while the stored representation
+				// differs, e.g. an integer re-stored as a string. That nothing is rewritten when nothing is new is
+				// C10's subject, decided there on the files.)
 				snapDigest, snapTime, lastSnapMs = before, now, now
 			case lsAfter == lsBefore:
 				// nothing new: allowed only if the dataset equals the one of the last snapshot
